@@ -139,6 +139,10 @@ def likelihood_chain(c, kind, m=2, n=2, noise='scalar'):
         else: model = cuqi.model.Model(lambda v: A @ (v ** 2), m, gd, jacobian=lambda v: A * (2 * v))
     if noise == 'scalar': data_dist = Gaussian(model, s)
     elif noise == 'vector': data_dist = Gaussian(model, c.vec('nv', m, pos=True))
+    elif noise == 'lognormal_vector':
+        from cuqi.distribution import Lognormal
+        y = c.vec('y', m, pos=True)
+        data_dist = Lognormal(model, c.vec('nv', m, pos=True))                               # its gradient uses the precision attribute of the inner Gaussian
     elif noise == 'dense_cov':
         G = c.lower('ng', m); data_dist = Gaussian(model, cov=G @ G.T)                     # correlated noise
     elif noise == 'dense_prec':
@@ -254,8 +258,9 @@ def jobs(tier):
         J.append(Job(f'Likelihood.gradient:chain_rule:{kind}', lambda c, k=kind: likelihood_chain(c, k), 'Pbox',
                      ['cuqi.likelihood._likelihood:Likelihood._gradient', f'{D}._gaussian:Gaussian._gradient', 'cuqi.model._model:Model.gradient',
                       f'{D}._posterior:Posterior._gradient'], rtol=1e-4, timeout=300))
-        for noise in ('vector', 'dense_cov', 'dense_prec', 'triangular_sqrtprec'):
+        for noise in ('vector', 'dense_cov', 'dense_prec', 'triangular_sqrtprec', 'lognormal_vector'):
             if q and kind in ('funcs', 'gradient'): continue
+            if noise == 'lognormal_vector' and kind != 'matrix' and q: continue
             J.append(Job(f'Likelihood.gradient:chain_rule:{kind}:noise={noise}', lambda c, k=kind, nz=noise: likelihood_chain(c, k, 2, 2, nz), 'Pbox',
                          ['cuqi.likelihood._likelihood:Likelihood._gradient', f'{D}._gaussian:Gaussian._gradient', 'cuqi.model._model:Model.gradient',
                           f'{D}._posterior:Posterior._gradient'], rtol=1e-4, timeout=300))
